@@ -146,7 +146,7 @@ class C20(Scenario):
         "quick": [("uniform", 5), ("late-handler", 3), ("late-family", 4), ("faulted-init", 2), ("real-algs", 3)],
         "thorough": [("uniform", 5), ("late-handler", 3), ("late-family", 4), ("faulted-init", 3), ("real-algs", 4), ("long", 2)],
     }
-    runs = {"quick": 5000, "thorough": 150000}
+    runs = {"quick": 8000, "thorough": 150000}
     wall = {"quick": 70, "thorough": 900}
     rule = (
         "one run = one seeded interleaving of {register new Expr type, define algorithm class, "
